@@ -56,6 +56,8 @@ pub fn classify(msg: &str, stage: u32) -> u32 {
         ("both object array and non-array", 17),
         ("Struct with Object inside cannot be used as an array", 18),
         ("should not have bounded array of primitive/struct", 19),
+        ("needs more than", 20),
+        ("is not in the range 1..=65535", 1),
         ("with overflow", 21),
         ("TryFromIntError", 20),
         ("IoError", 23),
